@@ -76,7 +76,7 @@ class _Worker:
             self.r.put(("HARNESS", repr(e)))
 
     def _probe(self):
-        out = {}
+        out = {"__current__": self.w.rt.current_runtime()}
         for ty in self.w.types:
             try:
                 out[ty] = self.w.cls[ty]().run()
@@ -157,12 +157,35 @@ class _Worker:
                 self.r.put(("exc", kind + ":" + type(e).__name__))
 
 
+def _identity(w, implicit, t, cur_obj, cur):
+    """'Restores exactly the runtime that was current': the object current in thread t must be the
+    runtime the specification names -- runtime object r, or (0) the thread's own implicit runtime,
+    which is one and the same object every time the thread is outside all blocks."""
+    if cur is None or cur_obj is None:
+        return None
+    r = cur[t]
+    if r:
+        if cur_obj is not w.R.get(r):
+            return "current_runtime() is not runtime object %d" % r
+        return None
+    if any(cur_obj is x for x in w.R.values()):
+        return "current_runtime() is an explicit runtime object although the thread is outside all blocks"
+    # an inherited runtime (Inherit) changes what 'own' means: only compare within one base
+    key = t
+    if key in implicit and implicit[key] is not cur_obj:
+        return "outside all blocks current_runtime() is a different object than before"
+    implicit[key] = cur_obj
+    return None
+
+
 def replay(rt, labels, types, init_defaults, threads, final_probe=True):
     """Replay one behaviour.  Returns None if every observation equals the prescribed one,
     else a dict describing the first mismatch."""
     w = World(rt, types, init_defaults, threads)
+    implicit = {}
     try:
         last_srv = None
+        last_cur = None
         for i, a in enumerate(labels):
             status, val = w.do(a)
             if status == "HARNESS":
@@ -170,13 +193,25 @@ def replay(rt, labels, types, init_defaults, threads, final_probe=True):
             if status == "exc":
                 return {"step": i, "action": a, "got": val, "expected": "no exception"}
             last_srv = a["srv"]
+            last_cur = a.get("cur")
+            if a["a"] == "Inherit":
+                implicit.pop(a["t"], None)  # the thread's base runtime is now whatever the parent had
             if a["a"] == "Probe":
                 exp = a["srv"][a["t"]]
+                cur_obj = val.pop("__current__", None)
                 if val != exp:
                     return {"step": i, "action": a, "got": val, "expected": exp}
+                m = _identity(w, implicit, a["t"], cur_obj, last_cur)
+                if m:
+                    return {"step": i, "action": a, "got": m, "expected": "the runtime object the specification names"}
         if final_probe:
             for t in (sorted(threads) if last_srv is not None else ()):
                 status, val = w.probe_in(t)
+                cur_obj = val.pop("__current__", None) if isinstance(val, dict) else None
+                m = _identity(w, implicit, t, cur_obj, last_cur) if status == "ok" and val == last_srv[t] else None
+                if m:
+                    return {"step": len(labels), "action": {"a": "FinalProbe", "t": t}, "got": m,
+                            "expected": "the runtime object the specification names"}
                 if status != "ok" or val != last_srv[t]:
                     return {"step": len(labels), "action": {"a": "FinalProbe", "t": t},
                             "got": val, "expected": last_srv[t]}
